@@ -32,7 +32,7 @@ import vlib
 from vlib import Check, run_tlc, run_cmd, build_harness, validate_trace, FrameworkError, WORK, log
 
 PID = "C16"
-MODEL_INVARIANTS = ("TypeOK GeoOnManifold GeoStepBound GeoSuccessNear TBEndOnManifold InterpInRange InterpEnd "
+MODEL_INVARIANTS = ("TypeOK GeoOnManifold GeoStepBound GeoSuccessNear TBEndOnManifold InterpInRange InterpEnd InterpStartIsFrom "
                     "InterpOnManifold MotionNeedsGeodesic MotionStatesValid MotionFormsAgree LastValidOnGeodesic Bounded")
 ACTIONS = ["PJStart", "PJProject", "PJValid", "PJStep", "PJRet", "ATStartValid", "ATStart", "ATPsi", "ATValid", "ATAccept",
            "ATRet", "TBAdvance", "TBValid", "TBLimits", "TBFun", "TBPsi", "TBRet"]
@@ -137,13 +137,6 @@ def _models(ck, t):
     lack = [e for e in REQUIRED_EXITS if e not in exits]
     if lack and not model_bad:
         raise FrameworkError("vacuity gate: loop exits never enumerated by the model: %s" % lack)
-    # design note, never a verdict: interpolate(from, to, 0) is not `from` (geodesicInterpolate returns the
-    # first stored state BEYOND t); not part of C16
-    small = dict(Kinds='{"PJ"}', MaxT=3, DSet="{1}", LSet="{4}", JBack=0, JFwd=0, RSet="{1}", MCSet="{0}", TDen=4)
-    res = run_tlc("spaces/Geodesic", cfg=_cfg("note", small, "InterpStartIsFrom", emit=False), workers=1, timeout=600)
-    if res.error:
-        raise FrameworkError(res.error)
-    ck.set("model_note_interpolate_at_0_is_not_from", res.violated == "InterpStartIsFrom")
     return cases
 
 
